@@ -1,4 +1,4 @@
-From Verif Require Import Lib.Base Roothash.Pool Roothash.PoolSpec Roothash.PoolProofs Roothash.PoolInv.
+From Verif Require Import Lib.Base Roothash.Pool Roothash.PoolSpec Roothash.PoolProofs Roothash.PoolInv Roothash.Verify Roothash.VerifyProofs.
 
 Theorem finalize_only_if_rule :
   forall (c : committee) (p : pool) (strag : N) (timeout : bool) (p' : pool) (sc : sched_commitment),
@@ -107,3 +107,57 @@ Theorem rank_priority_no_worse_entry_history :
     aget r (scs (run c ops new_pool)) = Some sc -> r <= hr (run c ops new_pool).
 Proof. exact no_worse_reachable. Qed.
 Print Assumptions rank_priority_no_worse_entry_history.
+
+(* ---- verify-then-add histories (what the roothash application does) ---- *)
+
+Theorem verify_establishes_verified :
+  forall (br bh mm : N) (vc : vcommit),
+    verify br bh mm vc = VOk -> verified ((br + 1) mod W64) (vc_ec vc).
+Proof. exact verify_ok_verified. Qed.
+Print Assumptions verify_establishes_verified.
+
+Theorem verify_ok_header :
+  forall (br bh mm : N) (vc : vcommit),
+    verify br bh mm vc = VOk ->
+    vc_sig_ok vc = true /\ validate_basic vc = true /\
+    vc_round vc = (br + 1) mod W64 /\ vc_prev vc = bh.
+Proof. exact verify_ok_header. Qed.
+Print Assumptions verify_ok_header.
+
+Theorem finalize_only_if_rule_verified_history :
+  forall (b : blockinfo) (c : committee) (ops : list vop) (strag : N) (timeout : bool)
+         (p' : pool) (sc : sched_commitment),
+    next_round b + N.of_nat (length c) < W64 ->
+    process c (vrun b c ops new_pool) strag timeout = (p', POk sc) ->
+    (disc (vrun b c ops new_pool) = false /\ unanimity c strag sc) \/
+    (disc (vrun b c ops new_pool) = true /\ backup_majority c sc).
+Proof. exact finalize_only_if_rule_verified_history. Qed.
+Print Assumptions finalize_only_if_rule_verified_history.
+
+Theorem rank_priority_verified_history :
+  forall (b : blockinfo) (c : committee) (ops : list vop) (strag : N) (timeout : bool)
+         (p' : pool) (sc : sched_commitment),
+    next_round b + N.of_nat (length c) < W64 ->
+    process c (vrun b c ops new_pool) strag timeout = (p', POk sc) ->
+    exists ec, sc_commit sc = Some ec /\ ec_node ec = ec_sched ec /\ ec_round ec = next_round b /\
+               scheduler_rank c (next_round b) (ec_sched ec) = Some (hr (vrun b c ops new_pool)).
+Proof. exact rank_priority_verified_history. Qed.
+Print Assumptions rank_priority_verified_history.
+
+Theorem rank_buckets_verified_history :
+  forall (b : blockinfo) (c : committee) (ops : list vop) (r : N) (sc : sched_commitment) (ec : commitment),
+    aget r (scs (vrun b c ops new_pool)) = Some sc -> sc_commit sc = Some ec ->
+    ec_node ec = ec_sched ec /\ ec_round ec = next_round b /\
+    scheduler_rank c (next_round b) (ec_sched ec) = Some r.
+Proof. exact rank_buckets_verified_history. Qed.
+Print Assumptions rank_buckets_verified_history.
+
+Theorem rank_priority_best_committed :
+  forall (b : blockinfo) (c : committee) (ops1 : list vop) (vc : vcommit) (ops2 : list vop) (p1 : pool) (r : N),
+    verify (blk_round b) (blk_hash b) (blk_max_msgs b) vc = VOk ->
+    add c (vrun b c ops1 new_pool) (vc_ec vc) = (p1, AOk) ->
+    vc_node vc = vc_sched vc ->
+    scheduler_rank c (next_round b) (vc_sched vc) = Some r ->
+    hr (vrun b c (ops1 ++ VAdd vc :: ops2) new_pool) <= r.
+Proof. exact rank_priority_best_committed. Qed.
+Print Assumptions rank_priority_best_committed.
